@@ -835,7 +835,8 @@ class Connection (EventMixin):
       self.info(msg)
     self.disconnected = True
     try:
-      self.ofnexus._disconnect(self.dpid)
+      if self.ofnexus._connections.get(self.dpid) is self:
+        self.ofnexus._disconnect(self.dpid)
     except:
       pass
     if self.dpid is not None:
